@@ -434,7 +434,7 @@ func c14ops() []c14op {
 	// definitions) only, not with the other general edits: a history is either general or belongs
 	// to one family.
 	famPrefixes := []string{"append phi [1, first block]", "replace the last incoming of the phi", "write i32 9 through the operand slot", "append named call @ext2", "replace the last argument of the call", "write i32 15 through the last operand slot", "attribute group { noinline", "replace the first attribute of the group", "drop the first attribute of the group", "attach comdat $grp", "register the comdat", "replace the last metadata definition", "add named metadata !b10", "rename named metadata !b10"}
-	setupPrefixes := []string{"m.NewGlobalDef(", "m.NewFunc(unnamed)+block", "m.NewFunc(named)+block", "f.NewBlock(", "append metadata def + named metadata", "append metadata def with explicit sparse ID"}
+	setupPrefixes := []string{"set/replace terminator ret @", "m.NewGlobalDef(", "m.NewFunc(unnamed)+block", "m.NewFunc(named)+block", "f.NewBlock(", "append metadata def + named metadata", "append metadata def with explicit sparse ID"}
 	has := func(name string, ps []string) bool {
 		for _, p := range ps {
 			if strings.HasPrefix(name, p) {
